@@ -38,6 +38,12 @@ def own_bag(cell):
 
 def run(chk):
     W, tlc = chk.workdir, chk.tlc
+    # the wide arithmetic behind "inside" at the far end of the coordinate range: tied to the plain one and to algebra
+    wcfg = os.path.join(W, "widecontains.cfg")
+    open(wcfg, "w").write("SPECIFICATION Spec\nINVARIANTS SmallAgree Identities InsideAgree FarAgree NearMiss\nCHECK_DEADLOCK FALSE\n")
+    r = tlc.check(os.path.join(vlib.SPECS, "geom", "MC_WideContains.tla"), wcfg, timeout=3600, workers=4)
+    chk.add_tlc("MC_WideContains (limb arithmetic = plain arithmetic where both exist; algebraic identities at 2^30)", r)
+    chk.tlc_must_pass("MC_WideContains", r)
     cfg = os.path.join(W, "rawgds.cfg")
     ndeep = 3000 if chk.tier == "thorough" else 25
     open(cfg, "w").write(f"SPECIFICATION Spec\nCONSTANT NDeep = {ndeep}\nINVARIANTS VerticesInside ShapesSimple Disjoint Emit\nCHECK_DEADLOCK FALSE\n")
@@ -47,7 +53,7 @@ def run(chk):
     cases = r.cases
     for i, c in enumerate(cases):
         c["id"] = i
-    chk.require(len(cases) >= 350, "case set incomplete")
+    chk.require(len(cases) >= 350 and sum(1 for c in cases if c["lib"]["cells"][0]["name"] == "w") >= 14, "case set incomplete")
     res = vlib.harness("raw_gds_rt", cases, W, timeout_ms=20000)
     events = []
     for c, q in zip(cases, res):
@@ -111,7 +117,8 @@ def run(chk):
         else:
             chk.model_drift(f"exported structure differs from RawGds positional model: {reason} ({b['id']})")
     # self-test (ii): a label moved outside its shape must be rejected
-    ev = next(e for e in events if any(g["k"] == "text" for g in e["gds"]))
+    ev = next(e for e in events if any(g["k"] == "text" for g in e["gds"])
+              and all(abs(v) < 500 for el in e["cell"]["elems"] for pt in el["pts"] for v in pt))
     bad = json.loads(json.dumps(ev))
     for g in bad["gds"]:
         if g["k"] == "text":
